@@ -262,6 +262,7 @@ def check(report: Report, repo: Repo) -> None:
                 report.add("R2-options", oc, ok, f"{lab}: constructor option '{opt}' is neither forwarded to U.{fname}, consumed at construction, read in forward, nor rejected", "dead option" if not ok else "consumed", "honoured or rejected", nontrivial=not ok)
 
     report.floor("leaf module classes analysed", n_cls, 11)
+    _layer_forward(report, repo)
 
     # ---------------------------------------------------------------- R5 reset_parameters
     it = Interp(repo, opaque=fopq)
@@ -288,39 +289,30 @@ def check(report: Report, repo: Repo) -> None:
             zero = [e for e in it.events if e.kind == "inplace" and "bias" in (e.get("alias") or ())]
             okz = (len(zero) == 1 and zero[0]["op"] == "zero_") if has_bias else not zero
             report.add("R5-init", f"{cons}::bias", okz, f"bias={has_bias}: a present bias is zeroed", [e["op"] for e in zero], ["zero_"] if has_bias else [])
+    # other leaf modules: torch's own initialisation carries option semantics (Embedding zeroes the
+    # padding_idx row, LayerNorm ones/zeros): an override must delegate to it
+    for cname in ("Embedding", "LayerNorm", "RMSNorm", "GELU", "SiLU", "Softmax", "Dropout", "CrossEntropyLoss"):
+        c2 = it.get_global(MD, cname)
+        own = [st for st in c2.node.body if isinstance(st, ast.FunctionDef) and st.name in ("reset_parameters", "_fill_padding_idx_with_zero")]
+        for st in own:
+            f2 = it.class_attr(c2, st.name)
+            selfv = Obj(cname, cls=c2, attrs={"weight": P("weight", None), "bias": P("bias", None), "padding_idx": O("padding_idx")}, term=T("param", ("self",)))
+            it.events = []
+            okd = None
+            try:
+                it.call_function(f2, [selfv], {})
+                sup = [e for e in it.events if e.kind == "super" and e["method"] == st.name]
+                fill = [e for e in it.events if e.kind == "callv" and "_fill_padding_idx_with_zero" in fmt(e["callee"])]
+                okd = bool(sup) or (cname == "Embedding" and st.name == "reset_parameters" and bool(fill))
+            except Unsupported:
+                okd = None
+            report.add("R5-init", f"{MD}::{cname}.{st.name}", okd, f"{cname} overrides torch's {st.name}: it must delegate to the torch implementation (padding_idx row zeroed / affine parameters at ones, zeros), otherwise a constructor option is no longer honoured at initialisation", "no delegation" if okd is False else "delegates", "super()." + st.name + "()")
     # LinearReadout inherits Linear's reset
     lr_cls = it.get_global(MD, "LinearReadout")
     rp = it.class_attr(lr_cls, "reset_parameters")
     report.add("R5-init", f"{MD}::LinearReadout.reset_parameters", isinstance(rp, FuncV) and rp.cls is not None and rp.cls.qualname == "Linear", "readout layers use Linear's unit-variance initialisation", fmt(rp), "Linear.reset_parameters", nontrivial=False)
 
-    # ---------------------------------------------------------------- R6 depth containers
-    for cname in ("DepthModuleList", "DepthSequential"):
-        it = Interp(repo)
-        cls = it.get_global(MD, cname)
-        init = it.class_attr(cls, "__init__")
-        cons = f"{MD}::{cname}.__init__"
-        for scen in ("tagged", "untagged"):
-            p1 = Obj("torch.nn.Parameter", attrs={"mup_type": "weight", "mup_scaling_depth": None}, open_attrs=False)
-            p2 = Obj("torch.nn.Parameter", attrs={"mup_type": "bias", "mup_scaling_depth": None}, open_attrs=False)
-            p3 = Obj("torch.nn.Parameter", attrs={}, open_attrs=False)
-            plist = [("a.weight", p1), ("a.bias", p2)] + ([("b.weight", p3)] if scen == "untagged" else [])
-            selfv = Obj(cname, cls=cls, term=T("param", ("self",)))
-            order: List[str] = []
-            selfv.attrs["named_parameters"] = _Builtin("named_parameters", lambda it_, a, k, nd, plist=plist, order=order: (order.append("named_parameters"), list(plist))[1])
-            it.super_hook = lambda it_, s_, c_, meth, a, k, order=order: (order.append("super"), None)[1]
-            it.events = []
-            try:
-                it.call_function(init, [selfv, O("modules")] if cname == "DepthModuleList" else [selfv, O("m1"), O("m2")], {})
-            except Unsupported as ex:
-                report.add("R6-depth", cons, None, f"{scen}: outside fragment: {ex}")
-                continue
-            raised = [e["exc"] for e in it.events if e.kind == "raise"]
-            if scen == "tagged":
-                okd = all(TM.term_of(p.attrs.get("mup_scaling_depth")) == T("len", (T("param", ("self",)),)) for p in (p1, p2)) and not raised
-                report.add("R6-depth", f"{cons}::depth", okd, "every parameter inside the container records depth = len(self)", [fmt(p.attrs.get("mup_scaling_depth")) for p in (p1, p2)], "len(self)")
-                report.add("R6-depth", f"{cons}::order", order[:2] == ["super", "named_parameters"], "parameters are tagged after the container is populated (super().__init__ first)", order, ["super", "named_parameters"], nontrivial=False)
-            else:
-                report.add("R6-depth", f"{cons}::untagged", raised == ["ValueError"], "an untagged parameter inside a depth container is refused with ValueError", raised, ["ValueError"])
+    check_depth_containers(report, repo, "R6-depth")
 
     # ---------------------------------------------------------------- composite modules
     copq = lambda f: (isinstance(f, FuncV) and f.module.name == "unit_scaling.functional") or (isinstance(f, ClassV) and f.qualname in ("Linear", "MHSA", "MLP", "RMSNorm"))
@@ -376,6 +368,54 @@ def check(report: Report, repo: Repo) -> None:
             report.add("R2-options", f"{MD}::TransformerLayer.__init__::{k}", TM.term_of(selfv.attrs.get(k)) == TM.term_of(vals[k]), f"'{k}' is stored for forward (its use is checked under C07)", fmt(selfv.attrs.get(k)), fmt(vals[k]), nontrivial=False)
     except Unsupported as ex:
         report.add("R2-options", f"{MD}::TransformerLayer.__init__", None, f"outside fragment: {ex}")
+
+
+def check_depth_containers(report: Report, repo: Repo, rule: str) -> None:
+    """Depth containers: depth tag == number of layers (len(self)), untagged parameters refused."""
+    from ..nnmodel import container_super_hook
+
+    def layer(name: str, tagged: bool = True) -> Obj:
+        p = Obj("torch.nn.Parameter", attrs=({"mup_type": "weight", "mup_scaling_depth": None} if tagged else {}), open_attrs=False)
+        return Obj("torch.nn.Module", attrs={"_params": [("weight", p)], "_modules": {}, "_p": p}, term=T("param", (name,)))
+
+    for cname, kind in (("DepthModuleList", "ModuleList"), ("DepthSequential", "Sequential")):
+        cls = Interp(repo).get_global(MD, cname)
+        cons = f"{MD}::{cname}.__init__"
+        shared = layer("shared")
+        scen = {
+            "three distinct layers": ([layer("a"), layer("b"), layer("c")], 3, None),
+            "one layer": ([layer("a")], 1, None),
+            "weight tying: the same layer instance four times": ([shared, shared, shared, shared], 4, None),
+            "an untagged parameter": ([layer("a"), layer("plain", tagged=False)], None, "ValueError"),
+        }
+        if kind == "Sequential":
+            scen["one OrderedDict of three named layers"] = ([{"first": layer("a"), "second": layer("b"), "third": layer("c")}], 3, None)
+        for sname, (mods, want_depth, want_exc) in scen.items():
+            it = Interp(repo)
+            it.super_hook = container_super_hook(kind)
+            init = it.class_attr(it.get_global(MD, cname), "__init__")
+            selfv = Obj(cname, cls=it.get_global(MD, cname), term=T("param", ("self",)))
+            it.events = []
+            try:
+                it.call_function(init, [selfv, list(mods)] if kind == "ModuleList" else [selfv, *mods], {})
+            except Unsupported as ex:
+                report.add(rule, cons, None, f"{sname}: outside fragment: {ex}")
+                continue
+            raised = [e["exc"] for e in it.events if e.kind == "raise"]
+            if want_exc:
+                report.add(rule, f"{cons}::untagged", raised == [want_exc], f"{sname}: an untagged parameter inside a depth container is refused with ValueError", raised, [want_exc])
+                continue
+            flat = [m for x in mods for m in (x.values() if isinstance(x, dict) else [x])]
+            depths_ = [m.attrs["_p"].attrs.get("mup_scaling_depth") for m in flat]
+            okd = not raised and all(d == want_depth for d in depths_)
+            report.add(rule, f"{cons}::depth", okd, f"{sname}: every parameter records depth = number of layers in the container (len(self) = {want_depth})", depths_, want_depth)
+
+
+
+def _layer_forward(report: Report, repo: Repo) -> None:
+    from .c07 import check_layer_forward
+
+    check_layer_forward(report, repo, "R1-delegation")
 
 
 def base_present(flags: Dict[str, Any], base: str, pname: str) -> Optional[bool]:
